@@ -363,9 +363,11 @@ class Recognizer(IRecognizer):
                 if typ in recognized_subclasses:
                     return {typ}, REC_OK
 
-            message = ('Could not determine which of the following types'
-                       ' this is: {}').format(cjoin(
-                           'or', map(type_to_desc, recognized_subclasses)))
+            message = ('{}\nCould not determine which of the following types'
+                       ' this is: {}').format(
+                               node.start_mark,
+                               cjoin('or', map(
+                                   type_to_desc, recognized_subclasses)))
             return recognized_subclasses, (message, causes)
 
         # Tags that don't match with what we recognized are an error,
